@@ -617,6 +617,12 @@ func (ex *Exec) doCall(fr *frame, st *State, cc *ssa.CallCommon, fnv Val, args [
 				}
 			}
 		}
+		if callee == nil && cc.Value != nil && cc.Value.Type().String() == "context.CancelFunc" {
+			// cancelling a context has no effect on the modelled state
+			ex.assumptions["context cancel functions have no modelled effect"] = true
+			ex.setResult(st, instr, TupleV{})
+			return
+		}
 		if callee == nil {
 			ex.assumptions["havoc (dynamic call): "+pos] = true
 			ex.havocCall(st, pos, "dynamic call")
